@@ -337,3 +337,106 @@ Section FiltAggCalls.
     rewrite (sc_fchain_agg x r g fs doc Hs Hd). reflexivity.
   Qed.
 End FiltAggCalls.
+
+(* ---------- mode parity for functions after steps and filters (C12) ---------- *)
+Section ModesFun.
+  Variable cfgP cfgA : config.
+  Variable parse_float : string -> option num.
+  Variable regex_ok : string -> bool.
+  Variable ffun : string -> value -> option value.
+  Variable afun : string -> list value -> option value.
+  Variable regex_match : string -> string -> bool.
+  Hypothesis ffun_small : forall f v w, small v -> ffun f v = Some w -> small w.
+  Hypothesis afun_small : forall f l w, Forall small l -> afun f l = Some w -> small w.
+  Hypothesis plain_off : cfg_accessor cfgP = false.
+  Hypothesis acc_on : cfg_accessor cfgA = true.
+  Hypothesis same_filters : cfg_filters cfgP = cfg_filters cfgA.
+  Hypothesis same_aggs : cfg_aggs cfgP = cfg_aggs cfgA.
+  Notation eval_run := (eval_run ffun afun regex_match).
+  Notation nav_allf := (nav_allf parse_float regex_match).
+
+  (* the values the functions leave: g(f(v)) for each reached value on which none fails *)
+  Definition fun_vals (fs : list (list N)) (l : list (list pstep * value)) : list value :=
+    flat_map (fun lv => match apply_funs ffun fs (snd lv) with Some w => [w] | None => [] end) l.
+  Lemma funs_all_vals cfg fs l : funs_all cfg ffun fs l = map (fun_result cfg) (fun_vals fs l).
+  Proof.
+    unfold funs_all, fun_vals. induction l as [|lv l IH]; [reflexivity|]. cbn [flat_map]. rewrite map_app, IH.
+    destruct (apply_funs ffun fs (snd lv)); reflexivity.
+  Qed.
+  Lemma known_same fs : forallb (fun_known cfgP) fs = forallb (fun_known cfgA) fs.
+  Proof. induction fs as [|f r IH]; [reflexivity|]. cbn [forallb]. unfold fun_known at 1 3. rewrite same_filters, IH. reflexivity. Qed.
+
+  (* plain and accessor mode: the same values in the same order (an accessor without a location: Set is nil), or both fail; and
+     the user functions receive the same calls *)
+  Theorem modes_agree_functions x r f fs doc st st' :
+    forallb fstep_ok (x :: r) = true -> forallb (fstep_okp parse_float regex_ok) (x :: r) = true ->
+    forallb fname_ok (f :: fs) = true -> forallb (fun_known cfgP) (f :: fs) = true -> small doc -> ok st -> ok st' ->
+    exists tP tA, parse_with cfgP parse_float regex_ok jsonpath_grammar (fchain_fun_path (x :: r) (f :: fs)) = ParseOk tP /\
+                  parse_with cfgA parse_float regex_ok jsonpath_grammar (fchain_fun_path (x :: r) (f :: fs)) = ParseOk tA /\
+      match fun_vals (f :: fs) (nav_allf doc (x :: r) ([], doc)) with
+      | [] => (exists e, fst (eval_run tP doc st) = OErr e) /\ (exists e, fst (eval_run tA doc st') = OErr e)
+      | l => fst (eval_run tP doc st) = OOk (map RVal l) /\ fst (eval_run tA doc st') = OOk (map (RAcc false None) l)
+      end /\
+      exists cs, calls (snd (eval_run tP doc st)) = calls st ++ cs /\ calls (snd (eval_run tA doc st')) = calls st' ++ cs.
+  Proof.
+    intros Hs Hp Hf Hk Hd Hok Hok'. assert (Hk' : forallb (fun_known cfgA) (f :: fs) = true) by (rewrite <- known_same; exact Hk).
+    destruct (fchain_fun_retrieval cfgP parse_float regex_ok ffun afun regex_match ffun_small afun_small x r f fs doc st Hs Hp Hf Hk Hd Hok) as (tP & HtP & HP).
+    destruct (fchain_fun_retrieval cfgA parse_float regex_ok ffun afun regex_match ffun_small afun_small x r f fs doc st' Hs Hp Hf Hk' Hd Hok') as (tA & HtA & HA).
+    destruct (fchain_fun_calls cfgP parse_float regex_ok ffun afun regex_match ffun_small afun_small x r f fs doc st Hs Hp Hf Hk Hd Hok) as (tP' & HtP' & CP).
+    destruct (fchain_fun_calls cfgA parse_float regex_ok ffun afun regex_match ffun_small afun_small x r f fs doc st' Hs Hp Hf Hk' Hd Hok') as (tA' & HtA' & CA).
+    rewrite HtP in HtP'. inversion HtP'; subst tP'. rewrite HtA in HtA'. inversion HtA'; subst tA'.
+    exists tP, tA. split; [exact HtP|]. split; [exact HtA|]. split.
+    - rewrite (funs_all_vals cfgP) in HP. rewrite (funs_all_vals cfgA) in HA.
+      assert (EP : forall l, map (fun_result cfgP) l = map RVal l) by (intros l; apply map_ext; intros w; unfold fun_result; rewrite plain_off; reflexivity).
+      assert (EA : forall l, map (fun_result cfgA) l = map (RAcc false None) l) by (intros l; apply map_ext; intros w; unfold fun_result; rewrite acc_on; reflexivity).
+      rewrite EP in HP. rewrite EA in HA.
+      destruct (fun_vals (f :: fs) (nav_allf doc (x :: r) ([], doc))) as [|a l]; split; assumption.
+    - eexists. split; [exact CP|exact CA].
+  Qed.
+End ModesFun.
+
+(* ---------- outcomes and history independence for functions after steps and filters (C03, C05) ---------- *)
+Section OutcomeFun.
+  Variable cfg : config.
+  Variable parse_float : string -> option num.
+  Variable regex_ok : string -> bool.
+  Variable ffun : string -> value -> option value.
+  Variable afun : string -> list value -> option value.
+  Variable regex_match : string -> string -> bool.
+  Hypothesis ffun_small : forall f v w, small v -> ffun f v = Some w -> small w.
+  Hypothesis afun_small : forall f l w, Forall small l -> afun f l = Some w -> small w.
+  Notation eval_run := (eval_run ffun afun regex_match).
+
+  Theorem fun_outcome_from_text x r f fs doc st :
+    forallb fstep_ok (x :: r) = true -> forallb (fstep_okp parse_float regex_ok) (x :: r) = true ->
+    forallb fname_ok (f :: fs) = true -> forallb (fun_known cfg) (f :: fs) = true -> small doc -> ok st ->
+    exists t, parse_with cfg parse_float regex_ok jsonpath_grammar (fchain_fun_path (x :: r) (f :: fs)) = ParseOk t /\
+              ((exists a l, fst (eval_run t doc st) = OOk (a :: l)) \/ (exists e, fst (eval_run t doc st) = OErr e)).
+  Proof.
+    intros Hs Hp Hf Hk Hd Hok.
+    destruct (fchain_fun_retrieval cfg parse_float regex_ok ffun afun regex_match ffun_small afun_small x r f fs doc st Hs Hp Hf Hk Hd Hok) as (t & Ht & H).
+    exists t. split; [exact Ht|].
+    destruct (funs_all cfg ffun (f :: fs) (nav_allf parse_float regex_match doc (x :: r) ([], doc))) as [|a l]; [right; exact H|].
+    left. eexists _, _. exact H.
+  Qed.
+
+  Theorem fun_history_independent_from_text x r f fs doc st st' :
+    forallb fstep_ok (x :: r) = true -> forallb (fstep_okp parse_float regex_ok) (x :: r) = true ->
+    forallb fname_ok (f :: fs) = true -> forallb (fun_known cfg) (f :: fs) = true -> small doc -> ok st -> ok st' ->
+    exists t, parse_with cfg parse_float regex_ok jsonpath_grammar (fchain_fun_path (x :: r) (f :: fs)) = ParseOk t /\
+              match fst (eval_run t doc st) with
+              | OOk rs => fst (eval_run t doc st') = OOk rs
+              | OErr _ => exists e, fst (eval_run t doc st') = OErr e
+              | OPanic _ => False
+              end.
+  Proof.
+    intros Hs Hp Hf Hk Hd Hok Hok'.
+    destruct (fchain_fun_retrieval cfg parse_float regex_ok ffun afun regex_match ffun_small afun_small x r f fs doc st Hs Hp Hf Hk Hd Hok) as (t & Ht & H).
+    destruct (fchain_fun_retrieval cfg parse_float regex_ok ffun afun regex_match ffun_small afun_small x r f fs doc st' Hs Hp Hf Hk Hd Hok') as (t' & Ht' & H').
+    rewrite Ht in Ht'. inversion Ht'; subst t'.
+    exists t. split; [exact Ht|].
+    destruct (funs_all cfg ffun (f :: fs) (nav_allf parse_float regex_match doc (x :: r) ([], doc))) as [|a l].
+    - destruct H as [e He]. rewrite He. exact H'.
+    - rewrite H. exact H'.
+  Qed.
+End OutcomeFun.
